@@ -50,6 +50,9 @@ enum Case {
     SeededRead { from: u64, n: usize },
     SeededCodec { from: u64, n: usize },
     SeededQuery { from: u64, n: usize },
+    /// probes `from..to` of the deterministic BGZF read enumeration of a BGZF item (member header / trailer fields x
+    /// caller buffer lengths around the direct-read thresholds x readers)
+    DetBgzf { item: usize, from: usize, to: usize },
 }
 
 fn case_json(w: &World, c: &Case) -> Value {
@@ -61,6 +64,7 @@ fn case_json(w: &World, c: &Case) -> Value {
         Case::SeededRead { from, n } => json!({"case": "seeded-read", "from": from, "n": n}),
         Case::SeededCodec { from, n } => json!({"case": "seeded-codec", "from": from, "n": n}),
         Case::SeededQuery { from, n } => json!({"case": "seeded-query", "from": from, "n": n}),
+        Case::DetBgzf { item, from, to } => json!({"case": "det-bgzf-read", "item": w.items[*item].item.name, "from": from, "to": to}),
     }
 }
 
@@ -111,6 +115,19 @@ fn gen_cases(ctx: &Ctx, w: &World) -> Vec<Case> {
                     cases.push(Case::Det { item: i, layer, from, to });
                     from = to;
                 }
+            }
+        }
+        for (i, it) in w.items.iter().enumerate() {
+            if it.item.kind != corpus::Kind::Bgzf || only.map(|o| !it.item.name.contains(o)).unwrap_or(false) {
+                continue;
+            }
+            let n = queries::det_bgzf_count(&it.item.bytes);
+            let batch = (3_000_000 / (it.item.bytes.len() + 3000)).clamp(100, 2000);
+            let mut from = 0;
+            while from < n {
+                let to = (from + batch).min(n);
+                cases.push(Case::DetBgzf { item: i, from, to });
+                from = to;
             }
         }
         if only.is_none() || only == Some("codec") {
@@ -316,7 +333,9 @@ fn run_case(ctx: &Ctx, w: &World, idx: u64, c: &Case) -> CaseOut {
             let nv = apis.len();
             let cache: std::cell::RefCell<(usize, Vec<u8>)> = std::cell::RefCell::new((usize::MAX, Vec::new()));
             let mut names = vec![];
-            let value_names: &[&str] = if *layer == Layer::CramStruct { &cramfmt::STRUCT_VALUES } else { &SUBST_NAMES };
+            let struct_names: Vec<String> = cramfmt::STRUCT_VALUES.iter().zip(cramfmt::ENCODING_TEMPLATES).map(|(a, b)| format!("choice: {a} or encoding {b}")).collect();
+            let struct_refs: Vec<&str> = struct_names.iter().map(String::as_str).collect();
+            let value_names: &[&str] = if *layer == Layer::CramStruct { &struct_refs } else { &SUBST_NAMES };
             for s in value_names {
                 for a in &apis {
                     names.push(format!("{s}/{}", api_name(*a)));
@@ -402,10 +421,24 @@ fn run_case(ctx: &Ctx, w: &World, idx: u64, c: &Case) -> CaseOut {
             let names: Vec<String> = queries::TARGETS.iter().map(|s| s.to_string()).collect();
             run_generic(*n, names, "seeded-query".into(), &|k| {
                 let mut rng = Rng::new(ctx.seed, STREAM_QUERY, from + k as u64);
-                match queries::seeded_probe(&mut rng, &w.data_infos) {
+                let bytes_of = |name: &str| w.items.iter().find(|p| p.item.name == name).map(|p| p.item.bytes.clone()).unwrap_or_default();
+                match queries::seeded_probe(&mut rng, &w.data_infos, &bytes_of) {
                     Some(q) => (q.target(), Probe::Query(q), "constructed index / offsets against a valid data file".into()),
                     None => (47, Probe::Codec { codec: 8, bytes: vec![], size: 0 }, "padding (no data file for the target)".into()),
                 }
+            })
+        }
+        Case::DetBgzf { item, from, to } => {
+            let it = &w.items[*item];
+            let mut names = vec![];
+            for f in queries::BGZF_FIELDS {
+                for r in queries::BGZF_READERS {
+                    names.push(format!("{f}/{r}"));
+                }
+            }
+            run_generic(to - from, names, "bgzf-read|member-fields-x-buffer-lengths".into(), &|k| match queries::det_bgzf_probe(&it.item.name, &it.item.bytes, from + k) {
+                Some((slot, p, d)) => (slot, Probe::Query(p), format!("input = item {}: {d}", it.item.name)),
+                None => (47, Probe::Codec { codec: 8, bytes: vec![], size: 0 }, "padding".into()),
             })
         }
     };
@@ -414,7 +447,7 @@ fn run_case(ctx: &Ctx, w: &World, idx: u64, c: &Case) -> CaseOut {
     fold_batch(&mut o, &prefix, &slot_names, batch);
     let ms = wall0.elapsed().as_millis() as u64;
     o.max("max_case_wall_ms", ms);
-    o.count(&format!("sum_case_wall_ms[{}]", match c { Case::Det { .. } => "det".to_string(), Case::DetCodec { .. } => "det-codec".to_string(), _ => part }), ms);
+    o.count(&format!("sum_case_wall_ms[{}]", match c { Case::Det { .. } => "det".to_string(), Case::DetCodec { .. } => "det-codec".to_string(), Case::DetBgzf { .. } => "det-bgzf-read".to_string(), _ => part }), ms);
     o
 }
 
@@ -469,6 +502,10 @@ fn fold_batch(o: &mut CaseOut, prefix: &str, slot_names: &[String], b: forkrun::
 }
 
 fn main() {
+    // the multithreaded BGZF reader uses the global rayon pool, created lazily in each batch process
+    if std::env::var("RAYON_NUM_THREADS").is_err() {
+        unsafe { std::env::set_var("RAYON_NUM_THREADS", "2") };
+    }
     let ctx = Ctx::from_args();
     let ctx = vcore::cases::replay_request(&ctx).map(|r| r.1).unwrap_or(ctx);
     sigs::install_hook();
